@@ -24,6 +24,10 @@ build_coq() {
 
 build_driver() {
   mkdir -p "$B/ocaml" && cd "$B/ocaml" || return 1
+  # up to date? (nothing the runner is built from is newer than it): do not relink under a check that is running it
+  if [ -x "$B/modelrun" ] && [ -z "$(find "$V/coq/theories" "$V/driver" \( -name '*.vo' -o -name '*.ml' -o -name 'Extract.v' \) -newer "$B/modelrun" -print -quit)" ]; then
+    return 0
+  fi
   timeout 600 coqc -Q "$V/coq/theories" Utp -o "$B/ocaml/Extract.vo" "$V/coq/theories/Extract/Extract.v" >"$B/extract.log" 2>&1 || { cat "$B/extract.log"; return 1; }
   rm -f "$B"/ocaml/c_*.ml; cp "$V"/driver/*.ml "$B/ocaml/" || return 1
   timeout 600 ocamlfind ocamlopt -O2 -w -a -o "$B/modelrun" model.mli model.ml zutil.ml $(ocamlfind ocamldep -sort c_*.ml) modelrun.ml 2>"$B/ocaml_build.log" \
